@@ -42,6 +42,15 @@ void Array::copyData(const Array &other) {
     }
 }
 
+bool Array::hasSameLayout(const Array &other) const {
+    if (type != other.type) return false;
+    if (type != DataType::COMPOSITE) return true;
+    for (size_t i = 0; i < data.size() && i < other.data.size(); i++) {
+        if (!data[i]->get<Composite>().hasSameLayout(other.data[i]->get<Composite>())) return false;
+    }
+    return true;
+}
+
 const std::vector<ArrayDimension> Array::copyDimensions(const std::vector<ArrayDimension> &source) {
     std::vector<ArrayDimension> copy;
     size_t size = source.size();
